@@ -10,10 +10,18 @@ package ledger
 // C10: the script generated for a revert. Forced: every source clause naming an account variable is written together with
 // its own overdraft allowance (the allowance belongs to the clause, not to the account: a second send from the same
 // account needs its own). Unforced: no allowance is ever written, so the revert is refused rather than overdrawing.
+//@ ufun monVal(key string) string
+// (the bracketed key determines its two parts: amounts are digit strings and assets contain no blank)
+//@ assume forall a0 string, s0 string :: monVal(sprintf("[%s %s]", a0, s0)) == sprintf("%s %s", s0, a0)
 //@ func ledger.TxToScriptData
 //@   ensures ret.Timestamp == txData.Timestamp && ret.Reference == txData.Reference && (txData.Metadata != nil ==> ret.Metadata == txData.Metadata) // C09
 //@   ensures allowUnboundedOverdrafts ==> sbOverdrafts - old(sbOverdrafts) == sbSources - old(sbSources) // C10
 //@   ensures !allowUnboundedOverdrafts ==> sbOverdrafts == old(sbOverdrafts) // C10
+// C09: de-duplication of the script variables is sound -- a variable's value is determined by the key it is filed under
+// (the key of a monetary is "[amount asset]" built from the same amount text and asset as its value "asset amount"; the
+// key of an account is its address), so two postings that share a variable agree on what it stands for
+//@   loop 1 invariant forall k0 string :: has(monetaryToVars, k0) ==> monetaryToVars[k0].value == monVal(k0) // C09
+//@   loop 1 invariant forall k1 string :: has(accountsToVars, k1) ==> accountsToVars[k1].value == k1 // C09
 //@   loop 3 invariant sbOverdrafts == old(sbOverdrafts) && sbSources == old(sbSources) // C10
 //@   loop 5 invariant sbOverdrafts == old(sbOverdrafts) && sbSources == old(sbSources) // C10
 //@   loop 6 invariant (allowUnboundedOverdrafts ==> sbOverdrafts - old(sbOverdrafts) == sbSources - old(sbSources)) && (!allowUnboundedOverdrafts ==> sbOverdrafts == old(sbOverdrafts)) // C10
